@@ -48,7 +48,7 @@ def public_wiring_eval(run, model, ao, pe):
                         sup = pureeval.Obj(post_fifo=lambda e_: log.append(('plain', 'fifo', e_)), post_lifo=lambda e_: log.append(('plain', 'lifo', e_)))
                         me = pureeval.Obj(__world__=True)
                         me.__dict__[pe.name] = timed
-                        ev_ = pureeval.Obj(signal_name='E')
+                        ev_ = pureeval.Obj(signal_name='E', signal=41, payload=None)
                         try:
                             got = pureeval.call(f.node, [me, ev_, period, times, deferred], globals_=dict(pureeval.module_constants(model, ao.module), super=(lambda: sup)),
                                                 methods={k: v for k, v in methods.items() if k != pe.name}, strict_locals=True, module_names=modnames, mutable=True)
